@@ -196,7 +196,8 @@ class PatternedDT(Generic[DT]):
                               'except (ValueError, TypeError):',
                               '  dt = default_load_func(date_string, cls, raise_=False)',
                               '  if dt is not None:',
-                              '    return dt']
+                              '    return dt',
+                              '  raise']
             else:
                 body_lines.append('return dt.time()')
         elif issubclass(cls, datetime):
@@ -216,7 +217,8 @@ class PatternedDT(Generic[DT]):
                               'except (ValueError, TypeError):',
                               '  dt = default_load_func(date_string, cls, raise_=False)',
                               '  if dt is not None:',
-                              '    return dt']
+                              '    return dt',
+                              '  raise']
 
             body_lines.append('return cls(dt.hour, dt.minute, dt.second, '
                               'dt.microsecond, fold=dt.fold)')
